@@ -1238,26 +1238,40 @@ def trace_to_replay(trace):
 
 
 def compare_replay(model_line, expected, stamps):
-    """-> (number of actions whose state agreed, first divergence text or None)."""
+    """-> (number of actions whose state agreed, first divergence text or None, premises).
+    premises: None, or {"actions": n, "<premise>": None | index of the first action violating it} as
+    reported by the driver (the boolean oracle premises of the global theorems, sys/ProtoPremises.v)."""
     try:
         out = sexpr.parse("(" + model_line + ")")
     except Exception:
-        return 0, "unparsable model output: " + model_line[:200]
+        return 0, "unparsable model output: " + model_line[:200], None
     if not out or not isinstance(out[0], list) or out[0][0] != "states":
-        return 0, "model driver: " + model_line[:200]
+        return 0, "model driver: " + model_line[:200], None
     states = out[0][1:]
-    fault = out[1] if len(out) > 1 else None
+    fault, premises = None, None
+    for extra in out[1:]:
+        if isinstance(extra, list) and extra and extra[0] == "fault":
+            fault = extra
+        elif isinstance(extra, list) and extra and extra[0] == "premises":
+            premises = {}
+            for item in extra[1:]:
+                if item[0] == "actions":
+                    premises["actions"] = int(item[1])
+                elif item[0] == "relevant":
+                    premises["relevant"] = {k: int(v) for k, v in item[1:]}
+                else:
+                    premises[item[0]] = None if item[1] == "ok" else int(item[1][1])
     agreed = 0
     for i, exp in enumerate(expected):
         if i >= len(states):
-            return agreed, "model fault at step %d: %s" % (i, unparse(fault) if fault else "missing state")
+            return agreed, "model fault at step %d: %s" % (i, unparse(fault) if fault else "missing state"), premises
         if exp is None:
             continue
         d = _first_diff(exp, _model_state(states[i], stamps))
         if d:
-            return agreed, "step %d: %s" % (i, d)
+            return agreed, "step %d: %s" % (i, d), premises
         agreed += 1
-    return agreed, None
+    return agreed, None, premises
 
 
 # ----------------------------------------------------------------------------- proof layer shared by C03 / C04 / C15
@@ -1273,7 +1287,8 @@ def _replay_chunk(args):
         if l.startswith("(result") or l.startswith("(sim-panic"):
             chunks.append(cur)
             cur = []
-    res = {"actions": 0, "traces": 0, "unmodelled": {}, "diverged": [], "summaries": {}}
+    res = {"actions": 0, "traces": 0, "unmodelled": {}, "diverged": [], "summaries": {},
+           "premise_traces": 0, "premise_actions": 0, "premise_violations": [], "premise_relevant": {}}
     replays, metas = [], []
     for line, ch in zip(lines, chunks):
         try:
@@ -1289,12 +1304,26 @@ def _replay_chunk(args):
     if replays:
         mo = subprocess.run([drv], input="\n".join(replays) + "\n", capture_output=True, text=True).stdout.splitlines()
         mo += ["(missing-output)"] * (len(replays) - len(mo))
-        for (line, exp, stamps, summ), m in zip(metas, mo):
-            agreed, d = compare_replay(m, exp, stamps)
+        for (line, exp, stamps, summ), m, rl in zip(metas, mo, replays):
+            agreed, d, premises = compare_replay(m, exp, stamps)
             res["actions"] += agreed
             res["traces"] += 1
             if d:
                 res["diverged"].append((line, d, summ))
+            elif premises is not None:
+                # the oracle premises of the global theorems, evaluated by the driver on every action of
+                # this REAL trace (only meaningful when model and code agreed on the whole trace)
+                res["premise_traces"] += 1
+                res["premise_actions"] += premises.get("actions", 0)
+                for k, v in premises.get("relevant", {}).items():
+                    res["premise_relevant"][k] = res["premise_relevant"].get(k, 0) + v
+                for name, idx in premises.items():
+                    if name not in ("actions", "relevant") and idx is not None:
+                        try:
+                            step = unparse(sexpr.parse(rl)[2][1:][idx])
+                        except Exception:
+                            step = "?"
+                        res["premise_violations"].append((name, idx, step, line, summ))
     return res
 
 
@@ -1324,6 +1353,39 @@ def correspondence(ctx, exe, drv, lines, judge_line):
     ctx.cov["traces_not_modelled"] = unmod
     ctx.cov["correspondence"] = "every scheduler action of a `qv_sim --trace` run replayed through the extracted sys/Proto.v (sys_step); state compared after EVERY action: run queue (ordered), parked sets, mailboxes, results, awaiting maps, awaited/awaiters, command and event queues (ordered, full contents), router, pending awaits, next pid, clock"
     ctx.cov["disagreements_checked"] = ctx.cov.get("disagreements_checked", 0) + len(diverged)
+    # the boolean oracle premises of the global theorems (coq/theories/sys/ProtoPremises.v), checked on
+    # every action of every real trace that replayed without divergence
+    names = ["pid_honest", "await_honest", "park_honest", "time_honest", "resume_honest"]
+    pviol = [v for r in results for v in r["premise_violations"]]
+    pc = ctx.cov.get("premise_checks") or {"traces": 0, "actions": 0, "violations": {n: 0 for n in names}}
+    pc["traces"] += sum(r["premise_traces"] for r in results)
+    pc["actions"] += sum(r["premise_actions"] for r in results)
+    for name, idx, step, line, summ in pviol:
+        pc["violations"][name] = pc["violations"].get(name, 0) + 1
+    rel = pc.setdefault("relevant_actions", {})
+    for r in results:
+        for k, v in r["premise_relevant"].items():
+            rel[k] = rel.get(k, 0) + v
+    pc["premises"] = "pid_honest = pid_honest_action (C15 step_never_errs); await_honest = await_honest_stepb (C04 await_backed / quiescent_no_ready); park_honest = honest_step (C04 parked_has_no_unseen_message); time_honest (C04 no_timeout_due_at_last_check); resume_honest = okc (C15 step_faults_only_bad_oracle_resume: resume_process only of a sleeping process); evaluated by the extracted premises_step on the model state before each replayed action"
+    # negative control: a slice that sends to the never-allocated pid 7 must be flagged
+    import subprocess
+    neg = "(replay (workers 1) (steps (x start 0) (w 0 - 0 (did (taken) - (forget) (deliver 7) 0 - 0) (expired 0) (awaiters 0) (completed 0))))"
+    nout = subprocess.run([drv], input=neg + "\n(selftest)\n", capture_output=True, text=True).stdout.splitlines()
+    flagged = [compare_replay(l, [], {})[2] for l in nout]
+    ok_neg = len(flagged) == 2 and all(f is not None and f.get("pid_honest") == 1 and f.get("actions") == 2 for f in flagged)
+    pc["negative_control"] = "flagged" if ok_neg else "NOT FLAGGED"
+    ctx.cov["premise_checks"] = pc
+    if not ok_neg:
+        ctx.violation({"kind": "correspondence-broken", "premise_check": "negative control (Send to an unallocated pid) not flagged by the driver",
+                       "driver_output": [l[-300:] for l in nout]}, no_input=True)
+    seen = set()
+    for name, idx, step, line, summ in pviol:
+        if name in seen:
+            continue
+        seen.add(name)
+        ctx.violation({"kind": "correspondence-broken",
+                       "premise": name, "meaning": "the hypothesis of the global theorem does not hold of this action of a REAL trace (the model and the code agree on the trace)",
+                       "action_index": idx, "action": step, "case": line, "observed": summ[:2000]}, no_input=True)
     for line, d, summ in diverged[:3]:
         s = Summary(summ)
         probs = judge_line(s) if s.ok else ["simulator: " + summ[:200]]
